@@ -339,7 +339,7 @@ def emit_orderings(kw):
         seen.setdefault(key, o)
         return True
 
-    r = tlc.run("MC_PoolConc", mc_cfg(keep=True, props="ACTION_CONSTRAINT Emit\n", **kw), workers=2, heap="3g",
+    r = tlc.run("MC_PoolConc", mc_cfg(keep=True, props="ACTION_CONSTRAINT Reduce\nACTION_CONSTRAINT Emit\n", **kw), workers=2, heap="3g",
                 timeout=3000, on_line=on_line)
     return r, [seen[k] for k in sorted(seen)]
 
